@@ -22,7 +22,12 @@ func TestMain(m *testing.M) { ev.Main(m, "C12") }
 type Case struct {
 	Text     string `json:"text"`
 	Trailing bool   `json:"trailing,omitempty"`
+	// Order: "" = every operation on a fresh Document; otherwise the operations (c Check, l Len,
+	// x whole lexeme stream) run in this order on one Document object
+	Order string `json:"order,omitempty"`
 }
+
+var orders = []string{"lcx", "clx", "xlc", "lxc", "cxl", "llccx", "xcxl"}
 
 func isBlank(c byte) bool { return c == ' ' || c == '\t' || c == '\n' || c == '\r' }
 
@@ -77,19 +82,30 @@ func oracle(c Case) *ev.Verdict {
 	if !utf8.ValidString(s) {
 		return nil
 	}
-	o := sut.ObserveDoc(s, c.Trailing, true)
+	var o *sut.DocOutcome
+	if c.Order == "" {
+		o = sut.ObserveDoc(s, c.Trailing, true)
+	} else {
+		o = sut.ObserveDocSeq(s, c.Trailing, c.Order)
+	}
 	if len(o.Escapes) > 0 {
 		e := o.Escapes[0]
 		return ev.V("panic:"+e.Op+":"+e.Frame, "%s panicked on %q: %s", e.Op, s, e.Value)
 	}
+	if o.Unstable != "" {
+		return ev.V("same-object:unstable", "%q: %s", s, o.Unstable)
+	}
 	mode := "strict"
+	if c.Order != "" {
+		mode = "same-object:strict"
+	}
 	var want bool
 	var wantLen int
 	if !c.Trailing {
 		want = json.Valid([]byte(s))
 		wantLen = len(strings.TrimRight(s, " \t\r\n"))
 	} else {
-		mode = "trailing"
+		mode = strings.TrimSuffix(mode, "strict") + "trailing"
 		a, end := firstValue(s)
 		b := somePrefixValid(s)
 		if a != b {
@@ -274,7 +290,7 @@ func viablePrefix(s string) bool {
 func enumerate(t *testing.T, name string, alpha []string, maxLen int) {
 	ev.KeepFirst(name)
 	var n, nt, bad int64
-	gen.Shortlex(alpha, maxLen, ev.Mine, func(b []byte, _ []int) {
+	gen.Shortlex(alpha, maxLen, ev.Mine, func(b []byte, toks []int) {
 		s := string(b)
 		for _, tr := range []bool{false, true} {
 			c := Case{Text: s, Trailing: tr}
@@ -282,6 +298,19 @@ func enumerate(t *testing.T, name string, alpha []string, maxLen int) {
 			v := oracle(c)
 			if v != nil && ev.Report(name, c, v) {
 				bad++
+			}
+			// the same operations on one Document object: every order for the shortest texts, one
+			// order (rotating) for the others
+			h := int(n)
+			for i, ord := range orders {
+				if len(toks) > 2 && i != h%len(orders) {
+					continue
+				}
+				c.Order = ord
+				n++
+				if v := oracle(c); v != nil && ev.Report(name, c, v) {
+					bad++
+				}
 			}
 		}
 		if utf8.Valid(b) && nontrivial(s, json.Valid(b)) {
@@ -293,7 +322,7 @@ func enumerate(t *testing.T, name string, alpha []string, maxLen int) {
 	})
 	ev.Count(name, n)
 	ev.NonTrivialEnum(name, nt)
-	ev.Exhaustive(name, fmt.Sprintf("every concatenation of <= %d tokens from %q, with and without the trailing-characters option", maxLen, alpha))
+	ev.Exhaustive(name, fmt.Sprintf("every concatenation of <= %d tokens from %q, with and without the trailing-characters option, on fresh Documents and with the operations on one Document (orders %v: all of them up to 2 tokens, one in rotation beyond)", maxLen, alpha, orders))
 	if bad > 0 {
 		t.Errorf("VIOLATION-CANDIDATE %s: %d cases", name, bad)
 	}
@@ -324,6 +353,8 @@ func registerAll() {
 	ev.Register("tokens", oracle)
 	ev.Register("bytes", oracle)
 	ev.Register("random", judged)
+	ev.Register("deep", judgedDeep)
+	ev.Register("deep-random", judgedDeep)
 }
 
 func TestPropRandom(t *testing.T) {
@@ -341,8 +372,142 @@ func TestPropRandom(t *testing.T) {
 		default:
 			s += rapid.SampledFrom([]string{" x", "]", "1", "\n{}", ",", "\"", " true"}).Draw(t, "tail")
 		}
-		return Case{Text: s, Trailing: rapid.Bool().Draw(t, "trailing")}
+		return Case{Text: s, Trailing: rapid.Bool().Draw(t, "trailing"), Order: rapid.SampledFrom(append([]string{"", ""}, orders...)).Draw(t, "order")}
 	}, judged)
+}
+
+// nest wraps core in the containers named by shape, outermost first: 'a' = array, 'o' = object,
+// 'A' / 'O' = the same with a sibling before and after
+func nest(shape string, core string) string {
+	var open, close strings.Builder
+	stack := []string{}
+	for _, c := range shape {
+		switch c {
+		case 'a':
+			open.WriteString("[")
+			stack = append(stack, "]")
+		case 'A':
+			open.WriteString("[1,")
+			stack = append(stack, ",\"z\"]")
+		case 'o':
+			open.WriteString(`{"k":`)
+			stack = append(stack, "}")
+		default:
+			open.WriteString(`{"a":[],"k":`)
+			stack = append(stack, `,"z":{}}`)
+		}
+	}
+	for i := len(stack) - 1; i >= 0; i-- {
+		close.WriteString(stack[i])
+	}
+	return open.String() + core + close.String()
+}
+
+func deepShape(kind int, depth int) string {
+	var b strings.Builder
+	for i := 0; i < depth; i++ {
+		b.WriteByte([]string{"a", "o", "ao", "AO", "aaoO", "oAa"}[kind][i%len([]string{"a", "o", "ao", "AO", "aaoO", "oAa"}[kind])])
+	}
+	return b.String()
+}
+
+func judgedDeep(c Case) *ev.Verdict {
+	d := 0
+	max := 0
+	inStr := false
+	for i := 0; i < len(c.Text); i++ {
+		switch ch := c.Text[i]; {
+		case ch == '"':
+			inStr = !inStr
+		case inStr:
+		case ch == '[' || ch == '{':
+			d++
+			if d > max {
+				max = d
+			}
+		case ch == ']' || ch == '}':
+			d--
+		}
+	}
+	if max >= 8 {
+		ev.NonTrivial("deep", c.Text+c.Order)
+		switch {
+		case max >= 64:
+			ev.Class("deep", "nesting depth >= 64")
+		case max >= 19:
+			ev.Class("deep", "nesting depth 19..63")
+		default:
+			ev.Class("deep", "nesting depth 8..18")
+		}
+		if json.Valid([]byte(c.Text)) {
+			ev.Class("deep", "valid")
+		}
+		if ev.WantSample("deep") && len(c.Text) < 400 {
+			ev.Sample("deep", c)
+		}
+	}
+	return oracle(c)
+}
+
+// nesting depth is the one dimension no length-bounded enumeration reaches: every depth up to 160
+// in six container patterns, balanced and with one closer missing / superfluous / of the wrong kind,
+// then random shapes up to depth 400
+func TestPropDeep(t *testing.T) {
+	registerAll()
+	ev.KeepFirst("deep")
+	idx := 0
+	var bad int64
+	for depth := 1; depth <= ev.N(160, 400); depth++ {
+		for kind := 0; kind < 6; kind++ {
+			for variant := 0; variant < 4; variant++ {
+				idx++
+				if !ev.Mine(idx) {
+					continue
+				}
+				s := nest(deepShape(kind, depth), []string{"1", `"s"`, "[]", "{}", "null"}[(depth+kind)%5])
+				switch variant {
+				case 1:
+					s = s[:len(s)-1]
+				case 2:
+					s += s[len(s)-1:]
+				case 3:
+					mid := len(s) / 2
+					for mid < len(s) && s[mid] != ']' && s[mid] != '}' {
+						mid++
+					}
+					if mid < len(s) {
+						s = s[:mid] + map[byte]string{']': "}", '}': "]"}[s[mid]] + s[mid+1:]
+					}
+				}
+				for _, tr := range []bool{false, true} {
+					c := Case{Text: s, Trailing: tr, Order: append([]string{""}, orders...)[idx%(len(orders)+1)]}
+					if v := judgedDeep(c); v != nil && ev.Report("deep", c, v) {
+						bad++
+					}
+					ev.Count("deep", 1)
+				}
+			}
+		}
+	}
+	if bad > 0 {
+		t.Errorf("VIOLATION-CANDIDATE deep: %d cases", bad)
+	}
+	ev.Rapid(t, "deep-random", ev.N(600, 6000), func(t *rapid.T) Case {
+		depth := rapid.SampledFrom([]int{10, 18, 19, 20, 33, 36, 40, 64, 65, 100, 130, 257, 400}).Draw(t, "depth")
+		var sh strings.Builder
+		for i := 0; i < depth; i++ {
+			sh.WriteByte(rapid.SampledFrom([]byte("aaooAO")).Draw(t, "c"))
+		}
+		v := gen.JSONValue(t, gen.JSONOpts{Exponents: true, Depth: 2})
+		s := nest(sh.String(), gen.EncodeJSON(t, v))
+		if rapid.IntRange(0, 3).Draw(t, "mutate") == 0 {
+			s = gen.Mutate(t, s, []string{"]", "}", "[", "{", ",", ":", "1"})
+		}
+		return Case{Text: s, Trailing: rapid.Bool().Draw(t, "trailing"), Order: rapid.SampledFrom(append([]string{"", ""}, orders...)).Draw(t, "order")}
+	}, func(c Case) *ev.Verdict {
+		v := judgedDeep(c)
+		return v
+	})
 }
 
 func TestPropRegressions(t *testing.T) {
